@@ -56,15 +56,15 @@ _TW_NOTE = "Trusts the harness problems' pure reference objective and the cfg(ma
 
 CHECKS["C05"] = dict(
     category="exploration",
-    technique="deterministic simulation: every shipped template stepped under a seeded generator, audit of every memory after every component execution; parallel evaluator on a simulated worker pool under seeded schedules",
-    text="Seeded search over all 21 shipped templates (plus two archive assemblies) with swarm-style valid parameters, instances with and without penalty regions (+inf), sequential evaluator; after EVERY child execution of every sequential block at every nesting level every evaluated individual in the population stack, best-so-far, elitist archive, personal/global bests and molecule memories must carry exactly F(solution). A second batch repeats the audit while the objectives are written by the simulated workers of evaluate::Parallel under seeded schedules. The individual-level clause is checked by seeded histories of Individual operations (construction, evaluation, every mutable access, clone / clone_from through Vec, slice and Option, population helpers) against an (solution, Option<objective>) model; assemblies of de::de / ga::ga run the shipped operators no template wires in by default; an assembly evaluates prepared populations (empty, runs of equal neighbours, evaluated next to unevaluated); a user-defined modify-then-validate mutation on the public mutation() driver fails in the middle of an individual and the state the caller is left with after the failed run is audited; individual histories evaluate with a changing objective." + _TW_FAULTS,
+    technique="deterministic simulation: every shipped template stepped under a seeded generator, audit of every memory after every component execution; parallel evaluator on a simulated worker pool under seeded schedules; thorough tier adds seeded search over Miri-scheduled thread interleavings of the real rayon pool (thread world)",
+    text="Seeded search over all 21 shipped templates (plus two archive assemblies) with swarm-style valid parameters, instances with and without penalty regions (+inf), sequential evaluator; after EVERY child execution of every sequential block at every nesting level every evaluated individual in the population stack, best-so-far, elitist archive, personal/global bests and molecule memories must carry exactly F(solution). A second batch repeats the audit while the objectives are written by the simulated workers of evaluate::Parallel under seeded schedules. The individual-level clause is checked by seeded histories of Individual operations (construction, evaluation, every mutable access, clone / clone_from through Vec, slice and Option, population helpers) against an (solution, Option<objective>) model; assemblies of de::de / ga::ga run the shipped operators no template wires in by default; an assembly evaluates prepared populations (empty, runs of equal neighbours, evaluated next to unevaluated); a user-defined modify-then-validate mutation on the public mutation() driver fails in the middle of an individual and the state the caller is left with after the failed run is audited; individual histories evaluate with a changing objective. Thorough tier only: the thread world - the same parallel path on the REAL rayon under Miri's seeded scheduler (preemption at basic-block ends, data-race detection on; 4 workloads x 16 Miri seeds), replayable by Miri seed." + _TW_FAULTS,
     note=_TW_NOTE,
     design_ref="5/C05",
 )
 CHECKS["C06"] = dict(
     category="exploration",
-    technique="deterministic simulation: call-logging objective vs counter at every evaluation step; missing/wrong evaluator identifier as injected fault; simulated worker pool schedules for the parallel evaluator",
-    text="At every PopulationEvaluator step of every template run: one objective call per individual of the pre-step population (multiset equality), order and solutions unchanged, all evaluated, counter advanced by the population size (0 for empty population or empty stack); at every step of any component: counter delta == objective calls; at run end: reported evaluations == objective calls and the evaluation budget is overshot by less than the last pass. Faults: evaluator not registered / registered under another identifier => Err, zero objective calls, zero executed steps (template batch and a dedicated identifier batch over Global/A/B). The parallel evaluator runs on 1..8 simulated workers under seeded random, sticky and PCT schedules with the same monitors; a panic inside the pool that the sequential run does not have is a violation. Evaluation steps also run on prepared populations (empty, duplicates, evaluated next to unevaluated) and after a scope whose init hook registered a surrogate evaluator (the caller's evaluator must be back in force)." + _TW_FAULTS,
+    technique="deterministic simulation: call-logging objective vs counter at every evaluation step; missing/wrong evaluator identifier as injected fault; simulated worker pool schedules for the parallel evaluator; thorough tier adds seeded search over Miri-scheduled thread interleavings of the real rayon pool (thread world)",
+    text="At every PopulationEvaluator step of every template run: one objective call per individual of the pre-step population (multiset equality), order and solutions unchanged, all evaluated, counter advanced by the population size (0 for empty population or empty stack); at every step of any component: counter delta == objective calls; at run end: reported evaluations == objective calls and the evaluation budget is overshot by less than the last pass. Faults: evaluator not registered / registered under another identifier => Err, zero objective calls, zero executed steps (template batch and a dedicated identifier batch over Global/A/B). The parallel evaluator runs on 1..8 simulated workers under seeded random, sticky and PCT schedules with the same monitors; a panic inside the pool that the sequential run does not have is a violation. Evaluation steps also run on prepared populations (empty, duplicates, evaluated next to unevaluated) and after a scope whose init hook registered a surrogate evaluator (the caller's evaluator must be back in force). Thorough tier only: the thread world - the same parallel path on the REAL rayon under Miri's seeded scheduler (preemption at basic-block ends, data-race detection on; 4 workloads x 16 Miri seeds), replayable by Miri seed." + _TW_FAULTS,
     note=_TW_NOTE + " rayon's scheduler is replaced by the simulated pool; interleavings at objective-call and queue granularity.",
     design_ref="5/C06",
 )
@@ -77,8 +77,8 @@ CHECKS["C07"] = dict(
 )
 CHECKS["C08"] = dict(
     category="exploration",
-    technique="deterministic simulation: rayon replaced by a shuttle-scheduled simulated worker pool; seeded random/sticky/PCT schedules; digest comparison sequential vs parallel vs clone; par_experiment under schedules",
-    text="Same workload run with the sequential evaluator, through a cloned configuration, and with evaluate::Parallel on 1/2/3/4/8 simulated workers under several seeded schedules each (hand-out order of individuals is part of the schedule): the digest (population stack bits, best, counters, decoded log, next word of the generator) must be identical. Generators: children are a function of the seed, different seeds differ, children keep the backend, optimize_with keeps a supplied non-default generator and is repeatable. par_experiment (<= 6 runs x <= 3 problems) on the simulated pool: every (run, problem) digest and every decoded log file equals the run executed alone with Random::new(run) (or with the generator the setup function supplies); file set exact. Problems of one experiment have different domains; 3 % of the sequential-vs-parallel cases are large initialisations (>= 2^14 elements), 6 % run a search with the four shipped diversity measures over populations of 1..80 (their states are part of the digest); seeds include 0..3 compared with their neighbours.",
+    technique="deterministic simulation: rayon replaced by a shuttle-scheduled simulated worker pool; seeded random/sticky/PCT schedules; digest comparison sequential vs parallel vs clone; par_experiment under schedules; thorough tier adds seeded search over Miri-scheduled thread interleavings of the real rayon pool (thread world)",
+    text="Same workload run with the sequential evaluator, through a cloned configuration, and with evaluate::Parallel on 1/2/3/4/8 simulated workers under several seeded schedules each (hand-out order of individuals is part of the schedule): the digest (population stack bits, best, counters, decoded log, next word of the generator) must be identical. Generators: children are a function of the seed, different seeds differ, children keep the backend, optimize_with keeps a supplied non-default generator and is repeatable. par_experiment (<= 6 runs x <= 3 problems) on the simulated pool: every (run, problem) digest and every decoded log file equals the run executed alone with Random::new(run) (or with the generator the setup function supplies); file set exact. Problems of one experiment have different domains; 3 % of the sequential-vs-parallel cases are large initialisations (>= 2^14 elements), 6 % run a search with the four shipped diversity measures over populations of 1..80 (their states are part of the digest); seeds include 0..3 compared with their neighbours. Thorough tier only: the thread world - the same parallel path on the REAL rayon under Miri's seeded scheduler (preemption at basic-block ends, data-race detection on; 4 workloads x 16 Miri seeds), replayable by Miri seed.",
     note="rayon's work-stealing scheduler and indicatif are stubs (shims/); a bug inside rayon is out of reach, a mahf change that makes results depend on which worker runs what, in what order, or how runs overlap is in reach. Interleavings are decided by a seeded scheduler at objective-call, queue and I/O granularity; a schedule is replayed from its seed and identified by the hash of the recorded task sequence.",
     design_ref="5/C08",
 )
@@ -98,8 +98,8 @@ CHECKS["C18"] = dict(
 )
 CHECKS["C19"] = dict(
     category="exploration",
-    technique="deterministic simulation: tour/pheromone monitors after every generation and update along seeded ACO runs (reachable pheromone states), extreme-draw buggify",
-    text="Both ACO templates over 2..8 cities, distance ratios up to 1e12, 0..8 ants, alpha,beta in [0,5] incl. exactly 0 and 1, rho in [0,1] incl. 0 and 1, initial trails incl. exactly 0, up to 200 iterations so that long-evaporated trails are reached: after generation ants+1 tours, each a permutation of all cities starting at 0, unevaluated; after each update the matrix equals (1-rho)*before + deposits recomputed from the rewarded tours on exactly the consecutive-city edges in both directions (purely relative tolerance 1e-9, tour lengths taken from the instance at hand), symmetric, finite, non-negative, max-min: within bounds. Instances include asymmetric ones and units of length 1e-17..1e17." + _TW_FAULTS,
+    technique="deterministic simulation: tour/pheromone monitors after every generation and update along seeded ACO runs (reachable pheromone states), extreme-draw buggify; thorough tier adds seeded search over Miri-scheduled thread interleavings of the real rayon pool (thread world)",
+    text="Both ACO templates over 2..8 cities, distance ratios up to 1e12, 0..8 ants, alpha,beta in [0,5] incl. exactly 0 and 1, rho in [0,1] incl. 0 and 1, initial trails incl. exactly 0, up to 200 iterations so that long-evaporated trails are reached: after generation ants+1 tours, each a permutation of all cities starting at 0, unevaluated; after each update the matrix equals (1-rho)*before + deposits recomputed from the rewarded tours on exactly the consecutive-city edges in both directions (purely relative tolerance 1e-9, tour lengths taken from the instance at hand), symmetric, finite, non-negative, max-min: within bounds. Instances include asymmetric ones and units of length 1e-17..1e17. Thorough tier only: the thread world - the same parallel path on the REAL rayon under Miri's seeded scheduler (preemption at basic-block ends, data-race detection on; 4 workloads x 16 Miri seeds), replayable by Miri seed." + _TW_FAULTS,
     note=_TW_NOTE,
     design_ref="5/C19",
 )
